@@ -20,6 +20,9 @@
 // pending peers catch up; foreign conf changes / leader changes; +4s, +11min;
 // run(k,j) (first event only) = add(k) and j faithful store steps.
 //
+// Debug switch: VERIF_C09_DET=1 builds every runs template 200 times and reports
+// templates whose steps differ from build to build (must print nothing but counts of 1).
+//
 // Oracle (reference written from the statement, evaluated after every event):
 //
 //	started-not-running, running-op-bad-status, unknown-running-op   <=1 running operator per region
@@ -370,10 +373,10 @@ const (
 
 type opDef struct {
 	kind int
-	k    int  // template
-	r    int  // region index
-	j    int  // run: number of faithful store steps
-	hi   bool // the waiting queue's random draw takes the highest bucket instead of the lowest
+	k    int // template
+	r    int // region index
+	j    int // run: number of faithful store steps
+	draw int // outcome of the waiting queue's random bucket draws in this event (see drawNames)
 	d    time.Duration
 }
 
@@ -514,17 +517,24 @@ func newModel(cfg *scopeCfg) *model {
 		}
 	}
 	if cfg.hand {
-		rest = append(rest, opDef{kind: oAddHand}, opDef{kind: oAddWaitHand}, opDef{kind: oAddWaitHand, hi: true})
+		rest = append(rest, opDef{kind: oAddHand})
+		for d := range drawNames {
+			rest = append(rest, opDef{kind: oAddWaitHand, draw: d})
+		}
 	}
 	for r := 0; r < cfg.regions; r++ {
 		rest = append(rest, opDef{kind: oRemove, r: r}, opDef{kind: oHB, r: r}, opDef{kind: oExec, r: r}, opDef{kind: oCatchup, r: r})
 		if cfg.hand {
-			rest = append(rest, opDef{kind: oHB, r: r, hi: true})
+			for d := 1; d < len(drawNames); d++ {
+				rest = append(rest, opDef{kind: oHB, r: r, draw: d})
+			}
 		}
 	}
 	rest = append(rest, opDef{kind: oPush})
 	if cfg.hand {
-		rest = append(rest, opDef{kind: oPush, hi: true})
+		for d := 1; d < len(drawNames); d++ {
+			rest = append(rest, opDef{kind: oPush, draw: d})
+		}
 	}
 	m.ops = append(m.ops, rest...)
 	m.Reset()
@@ -566,8 +576,8 @@ func (m *model) NumOps() int { return len(m.ops) }
 func (m *model) OpName(i int) string {
 	o := m.ops[i]
 	hi := ""
-	if o.hi {
-		hi = ",draw=high"
+	if o.draw > 0 {
+		hi = ",draw=" + drawNames[o.draw]
 	}
 	switch o.kind {
 	case oAdd:
@@ -635,23 +645,37 @@ func (m *model) Possible(h []int, op int) bool {
 	case oAddHand:
 		return handBuilds > 0
 	case oAddWaitHand:
-		return handBuilds > 0 && (!o.hi || built >= 2)
+		return handBuilds > 0 && built >= drawNeeds[o.draw]
 	case oRemove, oExec:
 		return submitted
 	case oCatchup:
 		return execd || foreign
 	case oHB, oPush:
-		return !o.hi || (waited && built >= 2)
+		return o.draw == 0 || (waited && built >= drawNeeds[o.draw])
 	}
 	return true
 }
 
-func (m *model) waitingPriorities() int {
-	seen := map[core.PriorityLevel]bool{}
-	for _, w := range m.oc.GetWaitingOperators() {
-		seen[w.GetPriorityLevel()] = true
+// The waiting queue picks a priority bucket at random (weights 1/4/9 over the
+// non-empty buckets). The draws of one event are a parameter of the event:
+// every draw the lowest bucket, every draw the highest, or first low then high /
+// first high then low. With at most two priority levels and at most three
+// waiting entries these are all outcomes.
+var drawNames = []string{"low", "high", "low-then-high", "high-then-low"}
+var drawNeeds = []int{0, 2, 3, 3} // operators that must exist for the variant to differ from "low"
+
+// drawMatters: variant d can differ from the variants before it.
+func (m *model) drawMatters(d int, extra []*operator.Operator) bool {
+	if d == 0 {
+		return true
 	}
-	return len(seen)
+	seen := map[core.PriorityLevel]bool{}
+	n := 0
+	for _, w := range append(m.oc.GetWaitingOperators(), extra...) {
+		seen[w.GetPriorityLevel()] = true
+		n++
+	}
+	return len(seen) >= 2 && n >= drawNeeds[d]
 }
 
 func (m *model) Enabled(i int) bool {
@@ -681,27 +705,20 @@ func (m *model) Enabled(i int) bool {
 		if len(m.hand) == 0 {
 			return false
 		}
-		if o.hi {
-			// the draw matters only when two priority levels wait
-			seen := map[core.PriorityLevel]bool{}
-			for _, w := range m.oc.GetWaitingOperators() {
-				seen[w.GetPriorityLevel()] = true
-			}
-			for _, h := range m.hand {
-				seen[m.recs[h].op.GetPriorityLevel()] = true
-			}
-			return len(seen) >= 2
+		var extra []*operator.Operator
+		for _, h := range m.hand {
+			extra = append(extra, m.recs[h].op)
 		}
-		return true
+		return m.drawMatters(o.draw, extra)
 	case oRemove:
 		return m.oc.GetOperator(regionIDs[o.r]) != nil
 	case oHB:
 		if m.sims[o.r].Merged {
 			return false
 		}
-		return !o.hi || m.waitingPriorities() >= 2
+		return m.drawMatters(o.draw, nil)
 	case oPush:
-		return !o.hi || m.waitingPriorities() >= 2
+		return m.drawMatters(o.draw, nil)
 	case oExec:
 		return len(m.mail[o.r]) > 0
 	case oCatchup:
@@ -941,9 +958,12 @@ func (m *model) accounted(rc *opRec, v *regionsim.Region) uint64 {
 }
 
 // pdCall runs a call into pd with the draw of the waiting queue fixed.
-func (m *model) pdCall(hi bool, f func()) {
+func (m *model) pdCall(draw int, f func()) {
+	k := 0
 	vrand.Chooser = func(n int, _ string) int {
-		if hi {
+		high := draw == 1 || (draw == 2 && k > 0) || (draw == 3 && k == 0)
+		k++
+		if high {
 			return n - 1
 		}
 		return 0
@@ -1168,7 +1188,7 @@ func sameCommand(a, b *pdpb.RegionHeartbeatResponse) bool {
 		proto.Equal(a.GetChangePeerV2(), b.GetChangePeerV2()) && proto.Equal(a.GetMerge(), b.GetMerge()) && proto.Equal(a.GetSplitRegion(), b.GetSplitRegion())
 }
 
-func (m *model) submit(recs []*opRec, waitingRoute, hi bool, what string) *hist.Violation {
+func (m *model) submit(recs []*opRec, waitingRoute bool, draw int, what string) *hist.Violation {
 	pre := m.snap()
 	var ops []*operator.Operator
 	for _, rc := range recs {
@@ -1179,7 +1199,7 @@ func (m *model) submit(recs []*opRec, waitingRoute, hi bool, what string) *hist.
 		rc.loc = locGone
 	}
 	var admittedAll bool
-	m.pdCall(hi, func() {
+	m.pdCall(draw, func() {
 		if waitingRoute {
 			m.oc.AddWaitingOperator(ops...)
 		} else {
@@ -1202,7 +1222,7 @@ func (m *model) submit(recs []*opRec, waitingRoute, hi bool, what string) *hist.
 	return nil
 }
 
-func (m *model) doHB(ridx int, hi bool) *hist.Violation {
+func (m *model) doHB(ridx int, draw int) *hist.Violation {
 	what := fmt.Sprintf("hb(r%d)", regionIDs[ridx])
 	pre := m.snap()
 	sim := m.sims[ridx]
@@ -1237,7 +1257,7 @@ func (m *model) doHB(ridx int, hi bool) *hist.Violation {
 		}
 	}
 	m.dispatched = map[int]bool{ridx: true}
-	m.pdCall(hi, func() { m.oc.Dispatch(info, schedule.DispatchFromHeartBeat) })
+	m.pdCall(draw, func() { m.oc.Dispatch(info, schedule.DispatchFromHeartBeat) })
 	viol := m.observe(pre, what)
 	m.dispatched = nil
 	if viol != nil {
@@ -1334,7 +1354,7 @@ func (m *model) doAdd(k int) *hist.Violation {
 	if v != nil || recs == nil {
 		return v
 	}
-	return m.submit(recs, false, false, "add("+m.cfg.tmpls[k].name+")")
+	return m.submit(recs, false, 0, "add("+m.cfg.tmpls[k].name+")")
 }
 
 func (m *model) Apply(i int) *hist.Violation {
@@ -1365,7 +1385,7 @@ func (m *model) Apply(i int) *hist.Violation {
 			recs = append(recs, m.recs[h])
 		}
 		m.hand, m.handBuilds = nil, 0
-		return m.submit(recs, o.kind == oAddWaitHand, o.hi, m.OpName(i))
+		return m.submit(recs, o.kind == oAddWaitHand, o.draw, m.OpName(i))
 	case oRemove:
 		pre := m.snap()
 		g := m.oc.GetOperator(regionIDs[o.r])
@@ -1378,7 +1398,7 @@ func (m *model) Apply(i int) *hist.Violation {
 		}
 		return nil
 	case oHB:
-		return m.doHB(o.r, o.hi)
+		return m.doHB(o.r, o.draw)
 	case oPush:
 		pre := m.snap()
 		m.isPush = true
@@ -1386,7 +1406,7 @@ func (m *model) Apply(i int) *hist.Violation {
 		for _, rc := range m.recs {
 			before[rc] = rc.op.Status()
 		}
-		m.pdCall(o.hi, func() { m.oc.PushOperators() })
+		m.pdCall(o.draw, func() { m.oc.PushOperators() })
 		v := m.observe(pre, "push")
 		m.isPush = false
 		if v != nil {
@@ -1434,12 +1454,12 @@ func (m *model) Apply(i int) *hist.Violation {
 				break
 			}
 			if m.sims[ridx].HasPending() {
-				if v := m.doHB(ridx, false); v != nil { // PD first sees the new peer pending
+				if v := m.doHB(ridx, 0); v != nil { // PD first sees the new peer pending
 					return v
 				}
 				m.sims[ridx].CatchUp()
 			}
-			if v := m.doHB(ridx, false); v != nil {
+			if v := m.doHB(ridx, 0); v != nil {
 				return v
 			}
 		}
@@ -1501,7 +1521,20 @@ func tMoveLeader(name string, r int, from, to uint64) tmpl {
 
 func tSetPeers(name string, r int, light bool, leader uint64, ps ...*metapb.Peer) tmpl {
 	return tmpl{name: name, region: r, build: func(m *model) ([]*operator.Operator, error) {
-		b := operator.NewBuilder("c09-"+name, m.cl, m.viewInfo(r)).SetPeers(peerMap(ps...))
+		// new peers get their ids here, in store order: the builder would allocate
+		// them in map order, which differs from run to run
+		v := m.viewInfo(r)
+		sorted := append([]*metapb.Peer(nil), ps...)
+		sort.Slice(sorted, func(i, j int) bool { return sorted[i].StoreId < sorted[j].StoreId })
+		var withIDs []*metapb.Peer
+		for _, p := range sorted {
+			q := &metapb.Peer{StoreId: p.StoreId, Role: p.Role}
+			if v.GetStorePeer(p.StoreId) == nil {
+				q.Id, _ = m.cl.AllocID()
+			}
+			withIDs = append(withIDs, q)
+		}
+		b := operator.NewBuilder("c09-"+name, m.cl, v).SetPeers(peerMap(withIDs...))
 		if leader != 0 {
 			b.SetLeader(leader)
 		}
@@ -1604,7 +1637,7 @@ func jointTemplates() []tmpl {
 		tMoveLeader("move-leader(1->4)", 0, 1, 4),                                           // AddLearner, Enter, TransferLeader, Leave, RemovePeer
 		tSetPeers("demote(2,3)", 0, false, 0, vp(1), lp(2), lp(3)),                          // Enter{demote 2,3}, Leave
 		tSetPeers("replace-voter-by-learner(3->4)", 0, false, 0, vp(1), vp(2), lp(4)),       // AddLearner, Enter{demote 3} (single change), Leave, RemovePeer
-		tSetPeers("add-voter+learner(4,5)", 0, false, 0, vp(1), vp(2), vp(3), vp(4), lp(5)), // AddLearner x2, Enter{promote 4} (single change), Leave
+		tSetPeers("add-voter+learner(4,5)", 0, false, 0, vp(1), vp(2), vp(3), vp(4), lp(5)), // AddLearner x2, promotion of 4 alone (single change)
 		tAddPeer("add-voter(4)", 0, vp(4)),                                                  // AddLearner, PromoteLearner
 		tRemove("remove-leader-peer(1)", 0, 1),                                              // TransferLeader, RemovePeer
 		tSetPeers("light-move(3->4)", 0, true, 0, vp(1), vp(2), vp(4)),                      // AddLightLearner, Enter, Leave, RemovePeer
@@ -1706,11 +1739,44 @@ func main() {
 			"verif/engine/regionsim is the store: it executes a queued command only when the command carries the region's current epoch and is addressed to the current leader (a faithful TiKV store), new peers are first pending; a ChangePeerV2 with one change is applied as a simple conf change",
 			"pkg/mock/mockcluster is the opt.Cluster (5 stores up, regions of size 0 so that store limits never bind); a region heartbeat = PutRegion(store state) followed by OperatorController.Dispatch(region, heartbeat) as the server does",
 			"time is virtual in server/schedule and server/schedule/operator (vclock); the TTL caches of pkg/cache keep real time, so remembered end statuses never expire within a run",
-			"the random bucket draw of the waiting queue (math/rand in server/schedule) is a parameter of the event (lowest / highest non-empty bucket); with at most two waiting priority levels these are all outcomes",
+			"the random bucket draws of the waiting queue (math/rand in server/schedule, through the vrand shim) are a parameter of the event: always the lowest non-empty bucket, always the highest, low-then-high, high-then-low; with the two priority levels and at most three waiting entries of the scopes these are all outcomes",
 			"'the region's current leader / epoch' of a command is PD's current knowledge of the region (the last heartbeat); 'accounted for' is evaluated by a reference that counts the membership changes of the finished and the current step that are visible in the heartbeat's region",
 			"the controller's push queue is read by reflection for the state key only",
 		},
 	})
 }
 
-var _ = sort.Strings
+func init() {
+	if os.Getenv("VERIF_C09_DET") == "" {
+		return
+	}
+	log.ReplaceGlobals(zap.NewNop(), &log.ZapProperties{})
+	for _, mode := range []int{modeJoint, modeJointOff, modeNoJoint} {
+		tm := map[int][]tmpl{modeJoint: jointTemplates(), modeJointOff: offTemplates(), modeNoJoint: plainTemplates()}[mode]
+		cfg := &scopeCfg{name: "det", mode: mode, regions: 1, maxBuilt: 2, tmpls: tm}
+		m := newModel(cfg)
+		for k, t := range tm {
+			seen := map[string]int{}
+			for i := 0; i < 200; i++ {
+				m.Reset()
+				ops, err := t.build(m)
+				if err != nil {
+					seen["ERR "+err.Error()]++
+					continue
+				}
+				var st []string
+				for j := 0; j < ops[0].Len(); j++ {
+					st = append(st, ops[0].Step(j).String())
+				}
+				seen[strings.Join(st, "; ")]++
+			}
+			fmt.Println(mode, k, t.name, len(seen))
+			if len(seen) > 1 {
+				for s, n := range seen {
+					fmt.Println("   ", n, s)
+				}
+			}
+		}
+	}
+	os.Exit(0)
+}
